@@ -953,7 +953,8 @@ impl BufferParser for Parser {
                         self.state = EngineState::Default;
 
                         if let Some(number) = self.parsed_numbers.first() {
-                            for _ in 0..*number {
+                            // more insertions than columns cannot change the visible line any further
+                            for _ in 0..(*number).min(buf.terminal_state.get_width()) {
                                 caret.ins(buf, current_layer);
                             }
                         } else {
@@ -1039,7 +1040,7 @@ impl BufferParser for Parser {
                                 ).into());
                             }
                             if let Some(number) = self.parsed_numbers.first() {
-                                for _ in 0..*number {
+                                for _ in 0..(*number).min(buf.terminal_state.get_width()) {
                                     caret.del(buf,current_layer);
                                 }
                             } else {
@@ -1063,7 +1064,7 @@ impl BufferParser for Parser {
                                 ).into());
                             }
                             if let Some(number) = self.parsed_numbers.first() {
-                                for _ in 0..*number {
+                                for _ in 0..(*number).min(buf.terminal_state.get_height()) {
                                     buf.insert_terminal_line(current_layer,caret.pos.y);
                                 }
                             } else {
@@ -1274,7 +1275,7 @@ impl BufferParser for Parser {
                         } else {
                             1
                         };
-                        (0..num).for_each(|_| buf.scroll_up(current_layer));
+                        (0..num.min(buf.terminal_state.get_height())).for_each(|_| buf.scroll_up(current_layer));
                         return Ok(CallbackAction::Update);
                     }
                     'T' => {
@@ -1285,7 +1286,7 @@ impl BufferParser for Parser {
                         } else {
                             1
                         };
-                        (0..num).for_each(|_| buf.scroll_down(current_layer));
+                        (0..num.min(buf.terminal_state.get_height())).for_each(|_| buf.scroll_down(current_layer));
                         return Ok(CallbackAction::Update);
                     }
                     'b' => {
@@ -1298,6 +1299,7 @@ impl BufferParser for Parser {
                             1
                         };
                         let ch = AttributedChar::new(self.last_char, caret.get_attribute());
+                        let num = num.min(buf.terminal_state.get_width() * buf.terminal_state.get_height());
                         (0..num).for_each(|_| buf.print_char(current_layer, caret, ch));
                         return Ok(CallbackAction::Update);
                     }
@@ -1344,7 +1346,7 @@ impl BufferParser for Parser {
                         } else {
                             1
                         };
-                        (0..num).for_each(|_| caret.set_x_position(buf.terminal_state.next_tab_stop(caret.get_position().x)));
+                        (0..num.min(buf.terminal_state.get_width())).for_each(|_| caret.set_x_position(buf.terminal_state.next_tab_stop(caret.get_position().x)));
                         return Ok(CallbackAction::Update);
                     }
                     'Z' => {
@@ -1361,7 +1363,7 @@ impl BufferParser for Parser {
                         } else {
                             1
                         };
-                        (0..num).for_each(|_| caret.set_x_position(buf.terminal_state.prev_tab_stop(caret.get_position().x)));
+                        (0..num.min(buf.terminal_state.get_width())).for_each(|_| caret.set_x_position(buf.terminal_state.prev_tab_stop(caret.get_position().x)));
                         return Ok(CallbackAction::Update);
                     }
                     _ => {
